@@ -13,6 +13,39 @@ def atoms(run):
     return t, s
 
 
+def sequence_forms_rule(ctx, index, entry):
+    """R7: `features` and `losses` are Sequences — the same abstract run with both given as TUPLES must not end in a TypeError (list + tuple,
+    a method only lists have) where the run with lists returns."""
+    from dataclasses import replace as _rp
+
+    from ..pipeline import PipeAnalysis, key_tv, keys_list
+    from ..values import ListV
+
+    ctx.rule("R7", "argument forms: with `features` and `losses` passed as tuples (the other admissible Sequence type) no path of mtl_backward raises TypeError / AttributeError")
+    P = PipeAnalysis(index)
+    P.ops.strict_sequence_kinds = True
+    f = index.get_function("torchjd.autojac.mtl_backward.mtl_backward")
+    tp = ListV(items=None, elem=keys_list("tasks_params[i]"), kind="list", order=(("tasks",), "same"))
+    from ..pipeline import flag
+
+    args = {"losses": ListV(items=None, elem=key_tv("losses[i]"), kind="tuple", order=(("tasks",), "same")), "features": _rp(keys_list("features"), kind="tuple"),
+            "aggregator": P.aggregator(), "tasks_params": tp, "shared_params": keys_list("shared_params"), "retain_graph": flag("retain_graph"), "parallel_chunk_size": P.chunk_arg(False, None)}
+    try:
+        results = P._run(f, args)
+    except Exception as ex:  # AnalysisError
+        ctx.undecided("R7", "mtl_backward(features=<tuple>, losses=<tuple>)", f"{type(ex).__name__}: {ex}", entry.loc())
+        return
+    bad = [(r.exc.exc_name, r.exc.where) for r in results if r.kind == "raise" and r.exc.exc_name in ("TypeError", "AttributeError")]
+    bad += [(e.get("exc"), e["loc"]) for r in results for e in r.events if e["kind"] in ("raise_site", "may_raise_in_loop") and e.get("exc") in ("TypeError", "AttributeError")]
+    rets = [r for r in results if r.kind == "return"]
+    if not bad and not rets:
+        ctx.undecided("R7", "mtl_backward(features=<tuple>, losses=<tuple>)", "no returning path of the run with tuples could be followed", entry.loc())
+        return
+    ctx.require(not bad, "R7", "mtl_backward(features=<tuple>, losses=<tuple>)", f"{len(rets)} returning paths, no TypeError",
+                (f"with `features` / `losses` given as tuples the call raises {bad[0][0]} at {bad[0][1]} (a list is concatenated with / treated like the tuple): "
+                 "features may be one tensor or any sequence of tensors") if bad else "", entry.loc())
+
+
 def losses_positions_rule(ctx, index, entry):
     """R6: one task per POSITION of `losses`. The same loss tensor may be listed twice (two rows); turning the losses into dictionary
     keys or set elements merges those positions (tensors hash by identity), so rows — and the parameters of the merged tasks — are lost."""
@@ -172,8 +205,26 @@ def check(index, ctx):
     from .C07 import partition_rule
 
     partition_rule(ctx, P, rs, "R2")
+    seen_sm = set()
+    for run in rs:
+        for res in run.results:
+            for e in _pipe.evs(res, "stack_members"):
+                if (e["loc"], e.get("mode")) in seen_sm:
+                    continue
+                seen_sm.add((e["loc"], e.get("mode")))
+                md = e.get("mode")
+                k_ = f"mtl_backward: the task transforms handed to the stack are in the order of the losses ({md})"
+                if md in ("same", "concrete"):
+                    ctx.ok("R2", k_, f"members in order {e['order']}", e["loc"], nontrivial=False)
+                elif md is not None and ("regrouped" in md or "filtered" in md or "reversed" in md or "sorted" in md or "unordered" in md or (md == "mixed" and e["order"].count("'tasks'") > 1)):
+                    ctx.violated("R2", "mtl_backward: row i of the stacked Jacobian belongs to losses[i]",
+                                 f"`{e['text'][:70]}` receives the per-task transforms in order {e['order']}: tasks are grouped / selected by a condition (or re-ordered), so the rows of the "
+                                 "feature-level Jacobian are not in the order of `losses` — a row-order-sensitive aggregator weighs the wrong task", e["loc"])
+                else:
+                    ctx.undecided("R2", k_, f"the order of the members ({e['order']}) could not be related to the order of the losses", e["loc"])
     single_pass_rule(ctx, index, "R5", entry)
     losses_positions_rule(ctx, index, entry)
+    sequence_forms_rule(ctx, index, entry)
     ctx.floor("non-empty returning paths of mtl_backward", n_main, 5)
     _pipe.common_evidence(ctx, index, ("mtl_backward",))
     ctx.assumptions.append("numerical values of gradients/Jacobians are NOT decided; accumulation semantics is decided under C06")
